@@ -141,7 +141,7 @@ Qed.
 
 Definition fn_ok (p : fprog) (f : ffn) : Prop :=
   match f with
-  | FDirect _ s => calls_in (is_directb p) s = true
+  | FDirect _ s => direct_okb p s = true
   | FFlat _ code => forallb (instr_okb p) code = true /\ NoDup (labels code)
   end.
 
@@ -277,7 +277,7 @@ Section Sim.
     induction n; intros f args w x Hd H; [discriminate|].
     simpl in *. unfold is_directb in Hd.
     destruct (nth_error p f) as [[np s|np code]|] eqn:Hf; try discriminate.
-    pose proof (fn_wf _ _ Hf) as Hok. simpl in Hok.
+    pose proof (fn_wf _ _ Hf) as Hok. simpl in Hok. apply andb_true_iff in Hok as [Hok _].
     destruct (exec (callf_nb (call p never n)) true n s args w) as [[[o l] w1]|] eqn:E; [|discriminate].
     erewrite (exec_mono_on (is_directb p) (callf_nb (call p never n)) (callf_nb (call p sc n))); eauto.
     intros f' a w0 r Hd' Hc. unfold callf_nb in *.
@@ -423,6 +423,7 @@ Section Sim.
         rewrite Hc in Hok. rewrite forallb_app in Hok. apply andb_true_iff in Hok as [_ Hok].
         simpl in Hok. apply andb_true_iff in Hok as [Hok _]. auto. }
       simpl in Hi. apply andb_true_iff in Hi as [Hs Hctx]. rewrite forallb_forall in Hctx.
+      apply andb_true_iff in Hs as [Hs _].
       destruct (exec (callf_nb (call p never n)) true k s loc w) as [[[o l] w1]|] eqn:E; [|discriminate].
       assert (E' : forall m k0, n <= m -> k <= k0 -> exec (callf_nb (call p sc m)) true k0 s loc w = Some (o, l, w1)).
       { intros m k0 Hm Hk0.
@@ -438,7 +439,7 @@ Section Sim.
         rewrite E' by lia. rewrite Efl. apply HR; lia.
       + destruct (find_flow l0 ctx) as [fl|] eqn:Efl; [|discriminate].
         assert (Hpo : calls_in (is_directb p) (fl_post fl) = true).
-        { specialize (Hctx l0 (exec_continue_label _ _ _ _ _ _ _ _ _ E [] eq_refl)). unfold post_okb in Hctx. rewrite Efl in Hctx. auto. }
+        { specialize (Hctx l0 (exec_continue_label _ _ _ _ _ _ _ _ _ E [] eq_refl)). unfold post_okb in Hctx. rewrite Efl in Hctx. apply andb_true_iff in Hctx as [Hctx _]. auto. }
         destruct (exec (callf_nb (call p never n)) true k (fl_post fl) l w1) as [[[o2 l2] w2]|] eqn:E2; [|discriminate].
         assert (E2' : forall m k0, n <= m -> k <= k0 -> exec (callf_nb (call p sc m)) true k0 (fl_post fl) l w1 = Some (o2, l2, w2)).
         { intros m k0 Hm Hk0.
